@@ -142,6 +142,12 @@ theorem conn_ids_and_seqs (secs : List (Int × Bool)) :
     have := seq_rule (secs.map (·.2)) i h'
     simpa using this
 
+/-- The same property as one executable check: `holds` — the decidable statement the driver also
+evaluates on the implementation's observed `(id, seq_no, content)` triples — is true of every run
+of the model, for every interleaving and clock behaviour. -/
+theorem conn_holds (secs : List (Int × Bool)) : holds (obsFrom {} secs) = true :=
+  holdsFrom_obsFrom secs {} none (Or.inl rfl)
+
 /-! ### non-vacuity -/
 
 /-- A frozen clock, a clock advancing by 1 ns, one jumping backwards: ids still distinct. -/
